@@ -58,7 +58,7 @@ def run_cases(ctx, binary, cases, tag):
 
 def selftest_records(records):
     out = []
-    res = [r for r in records if r["present"]["sres"] and r["mut"]["kind"] == "none"]
+    res = [r for r in records if r["present"]["sres"] and r["mut"]["kind"] == "none" and not r["hist"] and len(r["keys0"]) == 1 and r["change"] == "none"]
     full = [r for r in records if r["changed"] and r["present"]["sdone"] and not r["present"]["sres"]]
     if not res or not full:
         raise Machinery("selftest: no resumed / no fallen-back record to corrupt")
